@@ -190,6 +190,30 @@ fn main() {
         let path = positional.get(1).cloned().unwrap_or_else(|| usage());
         std::process::exit(replay(&mut ctx, &path));
     }
+    if positional.first().map(|s| s.as_str()) == Some("refdump") {
+        // debugging aid: reference evaluation (value, cancellation scale) of the case stored in a witness
+        let path = positional.get(1).cloned().unwrap_or_else(|| usage());
+        let filter = positional.get(2).cloned().unwrap_or_default();
+        let doc: serde_json::Value = serde_json::from_str(&std::fs::read_to_string(&path).unwrap_or_default()).unwrap_or_default();
+        let case: Option<case::Case> = serde_json::from_value(doc["witness"]["case"].clone()).ok();
+        let Some(case) = case else {
+            eprintln!("no case in {path}");
+            std::process::exit(2);
+        };
+        let mut t = tally::Tally::default();
+        match mon::common::prepare("debug", &case, &mut t) {
+            Some((comps, fac)) => match mon::common::ref_eval_parsed(&comps, &fac, case.k, case.area, case.lm) {
+                Ok(rf) => {
+                    for (p, v) in rf.iter().filter(|(p, _)| p.contains(&filter)) {
+                        println!("{p} = {} (scale {:e})", v.v, v.s);
+                    }
+                }
+                Err(e) => println!("reference evaluation fails: {e:?}"),
+            },
+            None => println!("case is rejected by the library before evaluation"),
+        }
+        std::process::exit(0);
+    }
     let prop = positional.first().cloned().unwrap_or_else(|| usage());
     let t0 = Instant::now();
     let report = match mon::run(&prop, &ctx) {
